@@ -88,7 +88,10 @@ def equalFold : Bytes → Bytes → Bool
     `index+len(match) > len(body)` ⇒ false; else `EqualFold(body[index:index+len(match)], match)`
     (the slice is in bounds by the guard). -/
 def isMatchFound (suffix mtch : Bytes) : Bool :=
-  if mtch.length > suffix.length then false else equalFold (suffix.take mtch.length) mtch
+  -- `index+len(match) > len(body)`, i.e. fewer than `len(match)` bytes are left (tested on the
+  -- taken prefix so that the driver does not walk the whole body at every position)
+  let str := suffix.take mtch.length
+  if str.length < mtch.length then false else equalFold str mtch
 
 /-- The four injection markers, in the order of the `||` chain. -/
 def markers : List Bytes := [lit "</head", lit "<link", lit "<style", lit "<script"]
